@@ -108,6 +108,28 @@ pub fn run_cli_stdout_unwritable(sc: &Scratch, args: &[&str]) -> CliOut {
     run_cli_with(sc, &sc.dir, args, true)
 }
 
+/// Standard error connected to /dev/full.
+pub fn run_cli_stderr_unwritable(sc: &Scratch, args: &[&str]) -> CliOut {
+    if !cli_available() {
+        inconclusive(&format!("{} not built", cli()));
+    }
+    let err = match std::fs::OpenOptions::new().write(true).open("/dev/full") {
+        Ok(f) => Stdio::from(f),
+        Err(e) => inconclusive(&format!("cannot open /dev/full: {e}")),
+    };
+    let out = match Command::new(cli()).args(args).current_dir(&sc.dir).env("HOME", sc.home()).env_remove("RUST_BACKTRACE").stdin(Stdio::null()).stdout(Stdio::piped()).stderr(err).spawn() {
+        Ok(c) => c.wait_with_output(),
+        Err(e) => inconclusive(&format!("cannot spawn cgt-tool: {e}")),
+    };
+    match out {
+        Ok(o) => {
+            use std::os::unix::process::ExitStatusExt;
+            CliOut { code: o.status.code(), signal: o.status.signal(), stdout: o.stdout, stderr: vec![] }
+        }
+        Err(e) => inconclusive(&format!("wait failed: {e}")),
+    }
+}
+
 fn run_cli_with(sc: &Scratch, cwd: &Path, args: &[&str], stdout_full: bool) -> CliOut {
     if !cli_available() {
         inconclusive(&format!("{} not built", cli()));
